@@ -113,7 +113,20 @@ def gen_c06(rnd, mode, tier):
         # at most one sending callback per token (order inside a group is unspecified)
         if not any(r.get("tok") == tk for rules in beh.values() for r in rules):
             beh.setdefault(full, []).insert(0, rule)
+    cancel = is_async and rnd.random() < 0.25
+    if cancel:
+        # cancel@await: some sends are wrapped in wait_for with a short (virtual) timeout
+        for sd in senders:
+            for s_ in sd["sends"]:
+                if rnd.random() < 0.5:
+                    s_["timeout"] = rnd.choice([0, 0.001, 0.003, 0.5, 30])
+                    s_.pop("early", None)
+    # every event has a value to return: unique per invocation (used for provenance of results)
+    beh.setdefault("M0/machine.on_transition", [{}])
+    for r_ in beh["M0/machine.on_transition"]:
+        r_["ret"] = {"$uniq": 1}
     sc = {"profile": "C06", "mode": mode, "programs": [prog], "beh": beh, "gv": {}, "senders": senders,
+          "cancel": cancel,
           "ops": [{"op": "new", "inst": "A", "prog": 0, "listeners": ["L0"], "rtc": True, "allow": False}],
           "perm_seed": 0}
     if mode == "threads":
@@ -172,6 +185,9 @@ def _exec_async(sc):
     harness = {}
 
     async def sender(sd):
+        from ..simrt import SENDER
+
+        SENDER.set(sd["id"])
         for s in sd["sends"]:
             if s.get("think"):
                 await asyncio.sleep(s["think"])
@@ -180,7 +196,10 @@ def _exec_async(sc):
                 c = sm.send(s["event"], tok=s["tok"])
                 if s.get("early") is not None:
                     await asyncio.sleep(s["early"])
-                r = await c
+                if s.get("timeout") is not None:
+                    r = await asyncio.wait_for(c, timeout=s["timeout"])
+                else:
+                    r = await c
                 SIM.rec(k="send-", s=sd["id"], tok=s["tok"], out=["ret", enc(r)])
             except Exception as e:
                 SIM.rec(k="send-", s=sd["id"], tok=s["tok"], out=["exc", SIM._describe_exc(e)])
@@ -377,6 +396,12 @@ def check(sc, res):
             open_cb[r["q"]] = tok
         elif r["k"] == "cb-":
             open_cb.pop(r["r"], None)
+    stats["cancelled_sends"] = sum(1 for r in trace if r["k"] == "send-" and r["out"][0] == "exc"
+                                   and r["out"][1].get("cls") == "TimeoutError")
+    if sc.get("cancel"):
+        # a cancelled drain aborts its transition and drops what is queued (C04): only the overlap
+        # clause is meaningful here
+        return [], stats
     # ---- 2. exactly once, by replaying the observed order on the transition table
     order = [b[0] for b in blocks]
     state = ref.progs[0].initial
@@ -456,6 +481,55 @@ def check(sc, res):
     return [], stats
 
 
+def result_provenance(sc, res):
+    """What a send() returns is built from the before/on results of the FIRST event processed by that
+    caller's own drain (its own event, or an earlier-enqueued one of another sender), and is None when
+    the call processed nothing.  Values are unique per invocation, so provenance is decidable."""
+    trace = res["trace"]
+    tok_of = {}
+    vals = {}
+    for r in trace:
+        if r["k"] == "cb+":
+            tok = r["b"].get("tok")
+            if tok is None and isinstance(r["b"].get("kw"), dict):
+                tok = dict((k, v) for k, v in r["b"]["kw"].get("$d", [])).get("tok")
+            tok_of[r["q"]] = tok
+        elif r["k"] == "cb-" and r["out"][0] == "ret":
+            v = r["out"][1]
+            if isinstance(v, str) and v.startswith("u:"):
+                vals.setdefault(tok_of.get(r["r"]), set()).add(v)
+
+    def leaves(v, out):
+        if isinstance(v, list):
+            for x in v:
+                leaves(x, out)
+        elif isinstance(v, str) and v.startswith("u:"):
+            out.append(v)
+        return out
+
+    begun = {}
+    for r in trace:
+        if r["k"] == "send+":
+            begun[(r["s"], r["tok"])] = r["q"]
+        elif r["k"] == "send-" and r["out"][0] == "ret":
+            lo = begun.get((r["s"], r["tok"]), 0)
+            first_tok = None
+            for x in trace:
+                if x["k"] == "cb+" and lo < x["q"] < r["q"] and x.get("s") == r["s"]:
+                    first_tok = tok_of.get(x["q"])
+                    break
+            got = leaves(r["out"][1], [])
+            allowed = vals.get(first_tok, set()) if first_tok is not None else set()
+            foreign = [g for g in got if g not in allowed]
+            if foreign:
+                owner = [t for t, vs in vals.items() if foreign[0] in vs]
+                return [{"clause": "C14.result_provenance", "kind": "foreign_result", "op": None,
+                         "detail": {"token": r["tok"], "returned": r["out"][1],
+                                    "first_event_processed_by_this_call": first_tok, "belongs_to": owner,
+                                    "switches": res.get("info", {}).get("switches")}}]
+    return []
+
+
 @register
 class C06(Campaign):
     pid = "C06"
@@ -465,7 +539,8 @@ class C06(Campaign):
     quick_runs = 12000
     thorough_runs = 150000
     chunk = 100
-    fault_kinds = ["preempt@line (threads, <=6 per run, 70% inside the dispatch code)", "sender think-time",
+    fault_kinds = ["preempt@line (threads, <=6 per run, 70% on lines touching the queue / the lock)",
+                   "cancel@await: sender wrapped in wait_for (asyncio; only the overlap clause is judged)", "sender think-time",
                    "coroutine created early / awaited late", "callback delay 0..1h virtual (stall)",
                    "nested send from a callback"]
     rule = ("one run = a total, fault-free machine and 2-4 concurrent senders (asyncio tasks with seeded "
@@ -508,6 +583,7 @@ class C06(Campaign):
     def counters(self, sc, ev):
         st = ev["res"]["stats"]
         c = {"probe.mode_" + sc["mode"]: 1, "probe.tokens": ev["c06"]["tokens"],
+             "fault.cancel@await(sender wait_for timeout)": ev["c06"].get("cancelled_sends", 0),
              "probe.loser_send_processed_by_other_sender": ev["c06"]["loser_returns"],
              "probe.overlapping_send_calls": ev["c06"]["overlapping_senders"],
              "fault.nested_sends": st.get("sends", 0), "fault.virtual_delays": st.get("delays", 0),
